@@ -777,8 +777,305 @@ def main_c29(run):
                       extra={"exhaustive": True})
 
 
+# ---------------------------------------------------------------- C27
+def sh(k, ch=(), of=""):
+    return {"k": k, "ch": list(ch), "of": of}
+
+
+HASHABLE = ["atom", "tuple", "frozenset"]
+
+
+def gen_shape(rng, depth, hashable=False, stack=()):
+    """random value shape; `stack`: kinds of the enclosing mutable containers (for self references)"""
+    r = rng.random()
+    if depth <= 0 or r < 0.3:
+        return sh("atom")
+    if not hashable and stack and r < 0.38:
+        return sh("self", of=rng.choice(stack))
+    kinds = ["tuple", "frozenset", "fraction", "range1", "range2", "range3"] if hashable else \
+        ["list", "tuple", "dict", "set", "frozenset", "bytearray", "fraction", "range1", "range2", "range3", "slice1",
+         "slice2", "slice3", "deque", "ordereddict", "counter", "defaultdict", "chainmap"]
+    k = rng.choice(kinds)
+    n = rng.randint(0, 3)
+    if k in ("list", "deque"):
+        return sh(k, [gen_shape(rng, depth - 1, False, stack + (k,)) for _ in range(n)])
+    if k == "tuple":
+        return sh(k, [gen_shape(rng, depth - 1, hashable, stack) for _ in range(n)])
+    if k in ("set", "frozenset"):
+        return sh(k, [gen_shape(rng, min(depth - 1, 1), True, ()) for _ in range(n)])
+    if k in ("dict", "ordereddict", "defaultdict"):
+        ch = []
+        for _ in range(n):
+            ch += [gen_shape(rng, min(depth - 1, 1), True, ()), gen_shape(rng, depth - 1, False, stack + (k,))]
+        return sh(k, ch)
+    if k == "counter":
+        ch = []
+        for _ in range(n):
+            ch += [gen_shape(rng, 0, True, ()), sh("atom")]
+        return sh(k, ch)
+    if k == "chainmap":
+        return sh(k, [gen_shape_dict(rng, depth - 1) for _ in range(rng.randint(1, 2))])
+    return sh(k)
+
+
+def gen_shape_dict(rng, depth):
+    ch = []
+    for _ in range(rng.randint(0, 2)):
+        ch += [sh("atom"), gen_shape(rng, depth - 1)]
+    return sh("dict", ch)
+
+
+ATOM_POOL = None
+
+
+_KEYSEQ = [0]
+
+
+def atoms(rng, hashable, intonly=False):
+    import hy.models as M
+    if intonly:
+        return rng.choice([0, 1, 5, -3])
+    if hashable:
+        # keys / set elements: mutually distinct values (no 1 vs True, 0 vs False vs -0.0 collisions)
+        _KEYSEQ[0] += 1
+        i = _KEYSEQ[0]
+        return rng.choice([1000 + i, f"k{i}", float(i) + 0.5, complex(i, 1), f"é{i}".encode("utf-8"), M.Keyword(f"k{i}"),
+                           2 ** 65 + i, -i - 2, (float("inf") if i % 97 == 0 else 3000 + i)])
+    pool = [None, True, False, 0, 1, -7, 2 ** 65, 1.5, -0.0, float("inf"), float("-inf"), float("nan"), 1e300, 3 - 2j,
+            complex(0, float("inf")), "", "a", "q\"uo'te\\\n\t\x00", "é\u2603", b"", b"by\"\\\xff", M.Keyword("kw"),
+            M.Keyword("")]
+    return rng.choice(pool)
+
+
+def fill(shape, rng, hashable=False, encl=()):
+    """shape -> real value; encl = list of (kind, object) of enclosing mutable containers"""
+    import collections
+    from fractions import Fraction
+    k = shape["k"]
+    ch = shape["ch"]
+    if k == "atom":
+        return atoms(rng, hashable)
+    if k == "self":
+        for kind, obj in reversed(encl):
+            if kind == shape["of"]:
+                return obj
+        return "no-such-container"
+    if k == "list":
+        v = []
+        v.extend(fill(c, rng, False, encl + (("list", v),)) for c in ch)
+        return v
+    if k == "deque":
+        v = collections.deque()
+        v.extend(fill(c, rng, False, encl + (("deque", v),)) for c in ch)
+        return v
+    if k == "tuple":
+        return tuple(fill(c, rng, hashable, encl) for c in ch)
+    if k == "set":
+        return {fill(c, rng, True) for c in ch}
+    if k == "frozenset":
+        return frozenset(fill(c, rng, True) for c in ch)
+    if k in ("dict", "ordereddict", "defaultdict"):
+        v = {} if k == "dict" else collections.OrderedDict() if k == "ordereddict" else \
+            collections.defaultdict(rng.choice([list, int, dict, str, set]))
+        for i in range(0, len(ch), 2):
+            v[fill(ch[i], rng, True)] = fill(ch[i + 1], rng, False, encl + ((k, v),))
+        return v
+    if k == "counter":
+        v = collections.Counter()
+        for i in range(0, len(ch), 2):
+            v[fill(ch[i], rng, True)] = atoms(rng, False, intonly=True)
+        return v
+    if k == "chainmap":
+        return collections.ChainMap(*[fill(c, rng) for c in ch])
+    if k == "bytearray":
+        return bytearray(rng.choice([b"", b"ab", b"\x00\xff\""]))
+    if k == "fraction":
+        _KEYSEQ[0] += 1
+        return Fraction(2 * _KEYSEQ[0] + 1, 2)
+    if k.startswith("range"):
+        _KEYSEQ[0] += 1
+        i = _KEYSEQ[0]            # non-empty, pairwise different ranges (empty ranges are all equal)
+        return {"1": range(i + 1), "2": range(rng.choice([1, 2, -2]), i + 3), "3": range(-i, i + 2, rng.choice([2, 3]))}[k[-1]]
+    a, b, c = rng.choice([1, "x", 2.5]), rng.choice([None, 4, "y"]), rng.choice([2, "z", 0.5])
+    return {"1": slice(b), "2": slice(a, b), "3": slice(rng.choice([None, 1]), b, c)}[k[-1]]
+
+
+def val_equal(a, b):
+    import collections
+    if type(a) is not type(b):
+        return False
+    if isinstance(a, float):
+        return (a != a and b != b) or (a == b and str(a) == str(b))
+    if isinstance(a, complex):
+        return val_equal(a.real, b.real) and val_equal(a.imag, b.imag)
+    if isinstance(a, (list, tuple, collections.deque)):
+        return len(a) == len(b) and all(val_equal(x, y) for x, y in zip(a, b))
+    if isinstance(a, collections.ChainMap):
+        return len(a.maps) == len(b.maps) and all(val_equal(x, y) for x, y in zip(a.maps, b.maps))
+    if isinstance(a, dict):
+        if isinstance(a, collections.defaultdict) and a.default_factory is not b.default_factory:
+            return False
+        if len(a) != len(b):
+            return False
+        ka, kb = list(a), list(b)
+        for k in ka:
+            m = [k2 for k2 in kb if val_equal(k, k2)]
+            if not m or not val_equal(a[k], b[m[0]]):
+                return False
+        return not isinstance(a, collections.OrderedDict) or all(val_equal(x, y) for x, y in zip(ka, kb))
+    if isinstance(a, (set, frozenset)):
+        return len(a) == len(b) and all(any(val_equal(x, y) for y in b) for x in a)
+    if isinstance(a, slice):
+        return all(val_equal(x, y) for x, y in zip((a.start, a.stop, a.step), (b.start, b.stop, b.step)))
+    return a == b
+
+
+def skeleton(m):
+    """model read from the printed text -> form skeleton comparable with the spec's"""
+    import hy.models as M
+    if isinstance(m, M.Symbol):
+        if str(m) in ("None", "True", "False", "NaN", "Inf", "-Inf"):
+            return {"f": "atom", "h": "", "ch": []}
+        return {"f": "sym", "h": "..." if str(m) == "..." else "factory", "ch": []}
+    if isinstance(m, M.Expression):
+        if m and isinstance(m[0], M.Symbol) and str(m[0]) in ("frozenset", "bytearray", "Fraction", "range", "slice",
+                                                                "deque", "OrderedDict", "Counter", "defaultdict", "ChainMap"):
+            return {"f": "expr", "h": str(m[0]), "ch": [skeleton(x) for x in m[1:]]}
+        return {"f": "atom", "h": "", "ch": []}      # e.g. a quoted model
+    for cls, name in ((M.List, "list"), (M.Tuple, "tuple"), (M.Dict, "dict"), (M.Set, "set")):
+        if isinstance(m, cls):
+            return {"f": name, "h": "", "ch": [skeleton(x) for x in m]}
+    return {"f": "atom", "h": "", "ch": []}
+
+
+def canon(a):
+    """canonical form of a skeleton: set elements and dict pairs in sorted order (their order is not fixed)"""
+    ch = [canon(x) for x in a["ch"]]
+    if a["f"] == "set":
+        ch = sorted(ch, key=lambda x: json.dumps(x, sort_keys=True))
+    elif a["f"] == "dict" and len(ch) % 2 == 0:
+        pairs = sorted(zip(ch[0::2], ch[1::2]), key=lambda x: json.dumps(x, sort_keys=True))
+        ch = [y for p_ in pairs for y in p_]
+    return {"f": a["f"], "h": a["h"], "ch": ch}
+
+
+def skel_equal(a, b):
+    return canon(a) == canon(b)
+
+
+def main_c27(run):
+    import collections
+    import signal
+    from fractions import Fraction
+    import hy
+    rng = random.Random(run.seed)
+    q = run.quick
+    shapes = []
+    for _ in range(2500 if q else 100000):
+        shapes.append(gen_shape(rng, rng.choice([2, 3, 3, 4])))
+    seen = set()
+    uniq = []
+    for s_ in shapes:
+        k = json.dumps(s_, sort_keys=True)
+        if k not in seen:
+            seen.add(k)
+            uniq.append(s_)
+    shapes = uniq
+    sf = run.work / "shapes.ndjson"
+    with open(sf, "w") as f:
+        for s_ in shapes:
+            f.write(json.dumps({"v": s_}) + "\n")
+    r = tlc.run("HyReprValues", tlc.cfg(invariants=["RoundTrip", "InputsWellFormed", "FormBounded", "Export"]), run.work,
+                workers=16, env={"SHAPE_FILE": str(sf)}, label="shapes", timeout=3000)
+    if r.violated:
+        raise MachineryError(f"HyReprValues: {r.violated} violated on the specification")
+    run.add_tlc(r, f"HyReprValues: {len(shapes)} distinct value shapes")
+    forms = {e["sid"]: e["form"] for e in r.ex("FORM")}
+    env = {"Fraction": Fraction, "deque": collections.deque, "OrderedDict": collections.OrderedDict,
+           "Counter": collections.Counter, "defaultdict": collections.defaultdict, "ChainMap": collections.ChainMap}
+
+    class Hang(BaseException):
+        pass
+
+    def alarm(*a):
+        raise Hang()
+    nfill = 2 if q else 20
+    nstruct = 0
+    for i, s_ in enumerate(shapes, 1):
+        cyclic = "\"self\"" in json.dumps(s_)
+        for j in range(nfill):
+            x = fill(s_, rng)
+            run.case((i, j), nontrivial=s_["k"] != "atom")
+            old = signal.signal(signal.SIGALRM, alarm)
+            signal.setitimer(signal.ITIMER_REAL, 5.0)
+            try:
+                t = hy.repr(x)
+            except Hang:
+                run.violation("hang:" + json.dumps(s_), f"hy.repr does not terminate on a value of shape {s_}", {"shape": s_})
+                continue
+            except RecursionError:
+                run.violation("recursion:" + json.dumps(s_), f"hy.repr recursed without bound on shape {s_}", {"shape": s_})
+                continue
+            finally:
+                signal.setitimer(signal.ITIMER_REAL, 0)
+                signal.signal(signal.SIGALRM, old)
+            try:
+                m = hy.read(t)
+            except Exception as e:
+                run.violation("unreadable:" + t[:100], f"hy.repr gave {t!r}, which does not read: {e}", {"text": t, "shape": s_})
+                continue
+            if j == 0:
+                if skel_equal(skeleton(m), forms[i]):
+                    nstruct += 1
+                elif "(defaultdict <class" in t:
+                    pass      # reported below under the known finding
+                else:
+                    run.violation("shape:" + json.dumps(s_)[:200], f"hy.repr of a value of shape {s_} printed {t!r}; the "
+                                  f"documented form is {forms[i]}", {"shape": s_, "text": t})
+            if cyclic:
+                def has_cycle(o, path=()):
+                    if isinstance(o, (list, dict, collections.deque)) and any(o is p_ for p_ in path):
+                        return True
+                    kids_ = list(o.values()) if isinstance(o, dict) else list(o) if isinstance(o, (list, tuple, collections.deque)) else \
+                        list(o.maps) if isinstance(o, collections.ChainMap) else []
+                    return any(has_cycle(c_, path + (o,)) for c_ in kids_)
+                if not has_cycle(x):
+                    continue
+                if "..." not in t:
+                    run.violation("placeholder:" + t[:100], f"self-referential value printed without placeholder: {t!r}",
+                                  {"shape": s_, "text": t})
+                else:
+                    run.cov["traces_validated_against_impl"] += 1
+                continue
+            if "<class '" in t and "(defaultdict <class" in t:
+                run.violation("defaultdict: factory printed with Python's repr",
+                              f"{t[:120]!r} does not evaluate back", {"text": t, "shape": s_})
+                continue
+            try:
+                y = hy.eval(m, dict(env))
+            except Exception as e:
+                run.violation("eval:" + t[:120], f"evaluating {t!r} raised {type(e).__name__}: {e}", {"text": t, "shape": s_})
+                continue
+            if not val_equal(x, y):
+                run.violation("value:" + t[:120], f"hy.repr({x!r}) = {t!r} evaluates to {y!r}", {"text": t, "shape": s_})
+            else:
+                run.cov["traces_validated_against_impl"] += 1
+    run.cov["structure_matches"] = nstruct
+    run.sample({"shape": shapes[3], "form": forms[4]})
+    run.sample({"value": repr(fill(shapes[3], rng)), "printed": hy.repr(fill(shapes[3], rng))})
+    return run.finish("model_checking",
+                      "value shapes over None/bool/int/float/complex/str/bytes/bytearray/list/tuple/dict/set/frozenset/"
+                      "keyword/Fraction/range/slice/deque/OrderedDict/Counter/defaultdict/ChainMap with self references; "
+                      "TLC computes the documented form skeleton of each (Unform(Form(v)) = v checked) and the harness fills "
+                      "the atoms (inf, nan, -0.0, big ints, quotes/escapes/non-ASCII): printed text must read to that "
+                      "skeleton, evaluate to an equal value of the same type, print a placeholder for self reference, and "
+                      "terminate",
+                      assumptions=["atom formatting (floats, string escapes) is exercised, not modelled"])
+
+
 def main(run):
-    return {"C25": main_c25, "C30": main_c30, "C31": main_c31, "C28": main_c28, "C29": main_c29}[run.pid](run)
+    return {"C25": main_c25, "C30": main_c30, "C31": main_c31, "C28": main_c28, "C29": main_c29,
+            "C27": main_c27}[run.pid](run)
 
 
 def replay(run, path):
